@@ -82,12 +82,18 @@ impl ShapeIndex {
     }
 }
 
+fn invalid_data(msg: &'static str) -> Error {
+    Error::IoError(std::io::Error::new(std::io::ErrorKind::InvalidData, msg))
+}
+
 /// Read the content of a .shx file
 fn read_index_file<T: Read>(mut source: T) -> Result<Vec<ShapeIndex>, Error> {
     let header = header::Header::read_from(&mut source)?;
 
-    let num_shapes = ((header.file_length * 2) - header::HEADER_SIZE) / INDEX_RECORD_SIZE as i32;
-    let mut shapes_index = Vec::<ShapeIndex>::with_capacity(num_shapes as usize);
+    // The lengths stored in the file cannot be trusted: no i32 arithmetic on them
+    let num_bytes = i64::from(header.file_length) * 2 - i64::from(header::HEADER_SIZE);
+    let num_shapes = (num_bytes / INDEX_RECORD_SIZE as i64).max(0) as usize;
+    let mut shapes_index = Vec::<ShapeIndex>::with_capacity(num_shapes);
     for _ in 0..num_shapes {
         let offset = source.read_i32::<BigEndian>()?;
         let record_size = source.read_i32::<BigEndian>()?;
@@ -104,7 +110,10 @@ fn read_one_shape_as<T: Read, S: ReadableShape>(
     mut source: &mut T,
 ) -> Result<(record::RecordHeader, S), Error> {
     let hdr = record::RecordHeader::read_from(&mut source)?;
-    let record_size = hdr.record_size * 2;
+    let record_size = hdr
+        .record_size
+        .checked_mul(2)
+        .ok_or(Error::InvalidShapeRecordSize)?;
     let shape = S::read_from(&mut source, record_size)?;
     Ok((hdr, shape))
 }
@@ -141,9 +150,12 @@ impl<T: Read + Seek, S: ReadableShape> Iterator for ShapeIterator<'_, T, S> {
             // as some shapes may not be stored sequentially and may contain 'garbage'
             // bytes between them.
             // The index alone tells which shapes are to be read, and in which order.
-            let start_pos = shapes_index.get(*self.next_shape)?.offset * 2;
+            let start_pos = i64::from(shapes_index.get(*self.next_shape)?.offset) * 2;
             *self.next_shape += 1;
-            if *self.current_pos == UNKNOWN_POS || start_pos != *self.current_pos as i32 {
+            if start_pos < 0 {
+                return Some(Err(invalid_data("negative shape offset in the index file")));
+            }
+            if *self.current_pos == UNKNOWN_POS || start_pos as u64 != *self.current_pos as u64 {
                 *self.current_pos = UNKNOWN_POS;
                 if let Err(err) = self.source.seek(SeekFrom::Start(start_pos as u64)) {
                     return Some(Err(err.into()));
@@ -162,8 +174,10 @@ impl<T: Read + Seek, S: ReadableShape> Iterator for ShapeIterator<'_, T, S> {
             }
             Ok(hdr_and_shape) => hdr_and_shape,
         };
-        *self.current_pos += record::RecordHeader::SIZE;
-        *self.current_pos += hdr.record_size as usize * 2;
+        *self.current_pos = self
+            .current_pos
+            .saturating_add(record::RecordHeader::SIZE)
+            .saturating_add(hdr.record_size.max(0) as usize * 2);
         Some(Ok(shape))
     }
 
@@ -380,7 +394,7 @@ impl<T: Read + Seek> ShapeReader<T> {
             _shape: std::marker::PhantomData,
             source: &mut self.source,
             current_pos: &mut self.current_pos,
-            file_length: (self.header.file_length as usize) * 2,
+            file_length: (self.header.file_length.max(0) as usize) * 2,
             shapes_index: self.shapes_index.as_deref(),
             next_shape: &mut self.next_shape,
         }
@@ -482,13 +496,16 @@ impl<T: Read + Seek> ShapeReader<T> {
         if let Some(ref shapes_index) = self.shapes_index {
             let offset = shapes_index
                 .get(index)
-                .map(|shape_idx| (shape_idx.offset * 2) as u64);
+                .map(|shape_idx| i64::from(shape_idx.offset) * 2);
 
             let num_shapes = shapes_index.len();
 
             self.current_pos = UNKNOWN_POS;
             let new_pos = match offset {
-                Some(n) => self.source.seek(SeekFrom::Start(n)),
+                Some(n) if n < 0 => {
+                    return Err(invalid_data("negative shape offset in the index file"))
+                }
+                Some(n) => self.source.seek(SeekFrom::Start(n as u64)),
                 None => self.source.seek(SeekFrom::End(0)),
             }?;
             self.current_pos = usize::try_from(new_pos).unwrap_or(UNKNOWN_POS);
